@@ -84,6 +84,9 @@ impl Drop for InstantiatingSignatureGuard {
 pub struct TypeSubstitutor {
     tpl_replace_map: HashMap<GenericTplId, SubstitutorValue>,
     alias_type_id: Option<LuaTypeDeclId>,
+    /// Aliases whose expansion led to this substitutor (outermost first), so that mutually
+    /// recursive generic aliases (`X<T> = Y<T>[]`, `Y<T> = X<T>`) are not expanded without end.
+    outer_alias_type_ids: Vec<LuaTypeDeclId>,
     self_type: Option<LuaType>,
 }
 
@@ -98,6 +101,7 @@ impl TypeSubstitutor {
         Self {
             tpl_replace_map: HashMap::new(),
             alias_type_id: None,
+            outer_alias_type_ids: Vec::new(),
             self_type: None,
         }
     }
@@ -113,6 +117,7 @@ impl TypeSubstitutor {
         Self {
             tpl_replace_map,
             alias_type_id: None,
+            outer_alias_type_ids: Vec::new(),
             self_type: None,
         }
     }
@@ -128,7 +133,16 @@ impl TypeSubstitutor {
         Self {
             tpl_replace_map,
             alias_type_id: Some(alias_type_id),
+            outer_alias_type_ids: Vec::new(),
             self_type: None,
+        }
+    }
+
+    /// Record that this alias substitutor was created while expanding under `outer`.
+    pub fn inherit_alias_chain(&mut self, outer: &TypeSubstitutor) {
+        self.outer_alias_type_ids = outer.outer_alias_type_ids.clone();
+        if let Some(alias_type_id) = &outer.alias_type_id {
+            self.outer_alias_type_ids.push(alias_type_id.clone());
         }
     }
 
@@ -221,7 +235,7 @@ impl TypeSubstitutor {
             return true;
         }
 
-        false
+        self.outer_alias_type_ids.contains(type_id)
     }
 
     pub fn add_self_type(&mut self, self_type: LuaType) {
